@@ -7,6 +7,10 @@ From Coq Require Import List Arith ZArith Bool.
 From GT Require Import Base.Conc.
 From GT Require Import Base.ConcIR.
 From GT Require Import WGModel WGSpec WGSpecProofs WGInv WGProofs WGWf WGRefute WGProg WGDenote.
+From GT Require Import WGCountZero.
+From GT Require Import Base.ConcIR2.
+From GT Require Import WGSim WGProg2 WGSimHand WGSimProps.
+From GT Require Import WGPropLemmas.
 Import ListNotations.
 Local Open Scope Z_scope.
 
@@ -18,6 +22,24 @@ Theorem C01 : forall progs sched,
   c01_ok (tr (wg_exec progs sched)) = true.
 Proof. exact c01_wb. Qed.
 
+(* the statement's first sentence with the REAL count (not the conservative lower bound): for
+   every Wait call (called at position s by thread tid, returning channel x at position r) and
+   every position u >= r at which x is observed closed, there is a position tau in [s, u] whose
+   observation shows Count() = 0.  (C01 above is the form the quantifier prescribes for judging
+   recorded traces: lb <= 0; it would also accept a release at the CALL of Dec.  This one does
+   not.)  Any number of goroutines, programs, schedules; no side condition. *)
+Theorem C01_count_zero : forall progs sched, c01z_spec (tr (wg_exec progs sched)).
+Proof. exact c01_count_zero. Qed.
+
+(* the same as an executable monitor (marks set only where Count() = 0 is observed), accepted on
+   every trace of the machine and sound for the sentence on EVERY trace; the judge evaluates it
+   on the recorded traces as well *)
+Theorem C01_count_zero_monitor : forall progs sched, c01z_ok (tr (wg_exec progs sched)) = true.
+Proof. exact c01z_all. Qed.
+
+Theorem C01_count_zero_monitor_sound : forall t, c01z_ok t = true -> c01z_spec t.
+Proof. exact c01z_ok_spec. Qed.
+
 (* the machine [wg_exec] is the denotation (Base/ConcIR.v) of the IR term [hand_prog], which the
    check ties to the current source by `gen_prog = hand_prog := eq_refl`: same memory and same
    trace for every client program and schedule *)
@@ -26,13 +48,32 @@ Theorem C01_machine_is_denotation : forall progs sched,
   tr (dwg_exec hand_prog progs sched) = tr (wg_exec progs sched).
 Proof. exact denote_current. Qed.
 
+(* the SEMANTIC tie.  [wg_sim_ok p sm] (WGSim.v) is a finite check-list about single micro-steps
+   of the denotation (Base/ConcIR2.v: helpers, every loop form, break/continue, several results)
+   of an IR term p with canonical site table sm.  Whatever term passes it denotes the machine of
+   the theorems: same memory, same trace, every program, every schedule.  The check proves the
+   check-list for the term regenerated from the source on every run (not a comparison with a
+   stored term), so the property is a theorem about what the source says now, and harmless
+   rewrites of the source do not break the tie. *)
+Theorem C01_sim_is_denotation : forall p sm, wg_sim_ok p sm -> forall progs sched,
+  sh (dwg2_exec p sm progs sched) = sh (wg_exec progs sched) /\
+  tr (dwg2_exec p sm progs sched) = tr (wg_exec progs sched).
+Proof. exact wg_sim. Qed.
+
+Theorem C01_any_source : forall p sm, wg_sim_ok p sm -> forall progs sched,
+  c01_ok (tr (dwg2_exec p sm progs sched)) = true.
+Proof. exact C01_of_source. Qed.
+
+(* the check-list holds for the IR of the current source (hand copy of what the translator
+   prints; proved by the same tactic the check runs) *)
+Theorem C01_current_source_sim : wg_sim_ok hand_prog2 hand_sitemap.
+Proof. exact hand_sim_ok. Qed.
+
 (* so the property holds of the denotation of what the source says *)
 Theorem C01_denoted : forall progs sched,
   well_behaved (tr (dwg_exec hand_prog progs sched)) = true ->
   c01_ok (tr (dwg_exec hand_prog progs sched)) = true.
-Proof.
-  intros progs sched. destruct (denote_current progs sched) as [_ ->]. apply c01_wb.
-Qed.
+Proof. exact p_C01_denoted. Qed.
 
 (* it holds even without the side condition *)
 Theorem C01_unconditional : forall progs sched, c01_ok (tr (wg_exec progs sched)) = true.
@@ -59,7 +100,7 @@ Proof. exact wg_trace_wf. Qed.
 (* hence the property in its declarative form for the machine *)
 Theorem C01_declarative : forall progs sched,
   well_behaved (tr (wg_exec progs sched)) = true -> c01_spec (tr (wg_exec progs sched)).
-Proof. intros progs sched H. apply c01_ok_spec. apply c01_wb. exact H. Qed.
+Proof. exact p_C01_declarative. Qed.
 
 (* the same in state form: a closed channel that some Wait returned has its zero_seen mark *)
 Theorem C01_state_form : forall progs sched w x,
@@ -71,13 +112,13 @@ Proof. exact c01_state_form. Qed.
    count zero and an installed channel is open otherwise *)
 Theorem C01_lb_le_count : forall progs sched,
   lb_of (tr (wg_exec progs sched)) <= cnt (sh (wg_exec progs sched)).
-Proof. intros. apply lb_le_count. apply Inv_exec. Qed.
+Proof. exact p_C01_lb_le_count. Qed.
 
 Theorem C01_sentinel_iff_zero : forall progs sched,
   let cf := wg_exec progs sched in
   (chn (sh cf) = 0%nat <-> cnt (sh cf) = 0) /\
   (cnt (sh cf) <> 0 -> ~ In (chn (sh cf)) (closed (sh cf))).
-Proof. intros. apply sentinel_iff_zero. apply Inv_exec. Qed.
+Proof. exact p_C01_sentinel_iff_zero. Qed.
 
 (* no call panics (close is never applied to a closed channel) *)
 Theorem C01_no_panic : forall progs sched it,
@@ -105,7 +146,13 @@ Theorem C01_orig_machine_is_denotation : forall progs sched,
 Proof. exact denote_pinned. Qed.
 
 Print Assumptions C01.
+Print Assumptions C01_count_zero.
+Print Assumptions C01_count_zero_monitor.
+Print Assumptions C01_count_zero_monitor_sound.
 Print Assumptions C01_machine_is_denotation.
+Print Assumptions C01_sim_is_denotation.
+Print Assumptions C01_any_source.
+Print Assumptions C01_current_source_sim.
 Print Assumptions C01_denoted.
 Print Assumptions C01_orig_machine_is_denotation.
 Print Assumptions C01_unconditional.
